@@ -313,7 +313,7 @@ pub fn run(ctx: &Ctx) -> anyhow::Result<Report> {
 		r.count_n("sweep_strings", count);
 	}
 	for k in 0..11 {
-		r.case("sweep", format!("CSweep {k} {} {model_len} {}", gstr(&alpha), glist(accepted[k].iter().map(|s| gstr(s)))));
+		r.big_case("sweep", format!("CSweep {k} {} {model_len} {}", gstr(&alpha), glist(accepted[k].iter().map(|s| gstr(s)))));
 	}
 	r.exhaustive = true;
 
